@@ -765,14 +765,16 @@ Proof.
   destruct (merge_files (d_cfg d) d1 order (d_active_id d1) (mkMs 0 a0 [] h0)) as [[d2 res] ev5] eqn:Hmf.
   pose proof (merge_files_files _ _ _ _ _ _ _ _ O1 Hmf) as Hs.
   destruct (same_files_props _ _ Hs) as (L2 & HOi & HPi).
-  assert (Hd' : d' = d2).
-  { destruct res as [ms|er ms].
-    - destruct (hf_close (c_io (d_cfg d)) (ms_hint ms)) as [h1 ev6].
-      destruct (h_close (c_io (d_cfg d)) (MData (ms_active_id ms)) (ms_active ms)) as [a1 ev7].
-      destruct (ms_close_older (c_io (d_cfg d)) (ms_older ms)) as [o1 ev8].
-      injection Hm as <- _ _ _. reflexivity.
-    - injection Hm as <- _ _ _. reflexivity. }
-  subst d'. eapply LogInv_keep; [exact HL|exact HI'|exact HR'|congruence|auto|auto].
+  destruct res as [ms|er ms].
+  - destruct (hf_close (c_io (d_cfg d)) (ms_hint ms)) as [h1 ev6].
+    destruct (h_close (c_io (d_cfg d)) (MData (ms_active_id ms)) (ms_active ms)) as [a1 ev7].
+    destruct (ms_close_older (c_io (d_cfg d)) (ms_older ms)) as [o1 ev8].
+    destruct (db_sync d2) as [d3 evS] eqn:Hsy.
+    injection Hm as <- _ _ _.
+    destruct (same_files_props _ _ (db_sync_files _ _ _ Hsy)) as (L3 & HOi3 & HPi3).
+    eapply LogInv_keep; [exact HL|exact HI'|exact HR'|congruence|auto|auto].
+  - injection Hm as <- _ _ _.
+    eapply LogInv_keep; [exact HL|exact HI'|exact HR'|congruence|auto|auto].
 Qed.
 
 (* ---- Close, then Open ---------------------------------------------------------------------------------- *)
